@@ -4,3 +4,7 @@ open Util
 
 let () =
   register "yamlset" (fun idx _ -> Printf.printf "yamlset %d err=* valid=* result=*\n" idx)
+
+let () =
+  register "sched" (fun idx _ -> Printf.printf "sched %d ok=* finished=* file=* outcomes=*\n" idx);
+  register "parallel" (fun idx _ -> Printf.printf "parallel %d rounds=* bad=*\n" idx)
